@@ -50,6 +50,7 @@ func c12Body(r *Run) {
 		cancelAt = time.Duration(t.Int(400)) * time.Millisecond
 	}
 	withOuts := t.Chance(1, 2)
+	ctxShapedErrs := t.Chance(1, 4)
 	r.Describe("Retry{MaxRetries:%d Initial:%v Mult:%.1f MaxInterval:%v RF:%.1f MaxElapsed:%v}; handler fails %d times (forever=%v), takes %v, failing attempts return outputs=%v; context cancelled at %v",
 		cfg.MaxRetries, cfg.InitialInterval, cfg.Multiplier, cfg.MaxInterval, cfg.RandomizationFactor, cfg.MaxElapsedTime, failFor, forever, hDur, withOuts, cancelAt)
 
@@ -67,6 +68,10 @@ func c12Body(r *Run) {
 		if forever || n <= failFor {
 			a.failed = true
 			a.err = fmt.Errorf("attempt %d failed", n)
+			if ctxShapedErrs {
+				// the failure is a time-out or cancellation further down (the message's own context is alive): an error like any other
+				a.err = fmt.Errorf("attempt %d failed: downstream call: %w", n, []error{context.DeadlineExceeded, context.Canceled}[n%2])
+			}
 			r.Fault("handler-error")
 			if withOuts {
 				a.outs = []*message.Message{message.NewMessage(fmt.Sprintf("fail-out-%d", n), nil)}
